@@ -9,6 +9,7 @@ import Gv.Model.Compress
 import Gv.Oracle.Mask
 import Gv.Model.Translate
 import Gv.Model.Stats
+import Gv.Model.Regex
 import Gv.Oracle.CliDefaults
 /-!
 Command-line glue (flag parsing, defaults, conversions, readers and writers) checked against the library
@@ -82,6 +83,8 @@ def expected (rows : Rows) (argv : List String) : Option String :=
   | ["unalign"] => some (ok (rows.map fun r => (r.1, ungap r.2)))
   | ["transpose"] => some (ok (transpose rows L))
   | "subsites" :: sites => do
+    -- (no site at all, flags: `subsitesExpected`)
+    if sites.isEmpty then none
     let ss ← sites.mapM parseInt?
     match selectSites rows L ss with
     | .ok r => some (ok r)
@@ -180,6 +183,10 @@ def expected (rows : Rows) (argv : List String) : Option String :=
     let (rs, _, _) := compress rows L
     some (ok rs)
   | ["sort"] => some (ok (pairs (sortRows (addAllStop (newAlign 1) rows).1)))
+  | ["sort", "--unaligned"] =>
+    -- plain sequences of any lengths (the generator gives distinct names)
+    if (rows.map Prod.fst).eraseDups.length != rows.length || rows.any (·.2.isEmpty) then none else
+    some (ok (pairs (sortRows (addAllIgnore (newBag 1) rows))))
   | "translate" :: "--ref-seq" :: name :: fl => do
     let ph ← parseInt? ((opt fl "--phase").getD (← effective "translateCmd" "phase"))
     let code : Int := match (opt fl "--genetic-code").getD (← effective "translateCmd" "genetic-code") with
@@ -202,10 +209,32 @@ def expected (rows : Rows) (argv : List String) : Option String :=
       let m := maxCharSite 1 ig iN (columnAt rows j)
       toString j ++ " " ++ stringOfBytes [m.1] ++ " " ++ toString m.2.1 ++ "|"))
   | ["stats", "nseq"] => some ("rc=0 out=" ++ toString rows.length ++ "|")
+  | ["stats", "nalign"] =>
+    -- a FASTA input holds one alignment (an input that is no alignment: a failing status after the count is printed)
+    if rows.isEmpty || (addAllStop (newAlign 1) rows).2 then none else some "rc=0 out=1|"
   | ["stats", "length"] => if L < 0 then none else some ("rc=0 out=" ++ toString L ++ "|")
   | ["stats", "taxa"] => some ("rc=0 out=" ++ String.join (rows.zipIdx.map fun (r, i) => toString i ++ " " ++ r.1 ++ "|"))
   | ["stats", "gaps"] => some ("rc=0 out=" ++ String.join (rows.map fun r => r.1 ++ " " ++ toString (r.2.count GAP) ++ "|"))
   | ["diff"] => some (ok (diffWithFirst rows))
+  | "diff" :: fl => do
+    -- cmd/diff.go: `--counts` (priority) prints, for every row but the first, how often each pair (reference character,
+    -- its character) occurs - the pairs sorted, those with a gap left out with `--no-gaps`; `--reverse` puts the
+    -- characters of the first row back where a row has `.`; else `DiffWithFirst`
+    if !(fl.all fun a => ["--counts", "--no-gaps", "--reverse"].contains a) then none
+    if (← effective "diffCmd" "output") != "stdout" then none
+    let counts := flag fl "--counts" || (← effective "diffCmd" "counts") == "true"
+    let noGaps := flag fl "--no-gaps" || (← effective "diffCmd" "no-gaps") == "true"
+    let rev := flag fl "--reverse" || (← effective "diffCmd" "reverse") == "true"
+    if counts then
+      if rows.any (fun r => r.2.any (· ≥ 128)) then none else
+      let (all, per) := countDifferences rows
+      let key (p : Byte × Byte) : String := stringOfBytes [p.1, p.2]
+      let keys := ((all.map key).mergeSort fun a b => decide (a ≤ b)).filter fun k => !(noGaps && k.contains '-')
+      let line (nm : String) (ds : List ((Byte × Byte) × Nat)) : String :=
+        nm ++ String.join (keys.map fun k => " " ++ toString (((ds.find? fun d => key d.1 == k).map (·.2)).getD 0)) ++ "|"
+      some ("rc=0 out=" ++ String.join (keys.map fun k => " " ++ k) ++ "|" ++ String.join (((rows.drop 1).zip per).map fun (r, ds) => line r.1 ds))
+    else if rev then some (ok (replaceMatchChars rows))
+    else some (ok (diffWithFirst rows))
   | "revcomp" :: rest =>
     -- cmd/revcomp.go: names given -> only those rows; `--unaligned` reads and writes plain sequences
     let names := rest.filter (· != "--unaligned")
@@ -232,9 +261,164 @@ def numGapsFromEnd (s : Seq) : Nat := (s.reverse.takeWhile (· == GAP)).length
 def numGapsOpenning (s : Seq) : Nat :=
   (s.foldl (fun (acc : Nat × Byte) c => (if c == GAP && acc.2 != GAP then acc.1 + 1 else acc.1, c)) (0, 62)).1
 
+/-- a pattern given to `-e`: outer `none` = outside the modelled subset of Go's regexp (`Gv/Model/Regex.lean`),
+`some none` = `regexp.Compile` fails -/
+def compileRe (pat : String) : Option (Option Regex.Re) :=
+  match Regex.parse pat with
+  | .ok re => some (some re)
+  | .bad => some none
+  | .unknown => none
+
+/-- `rename -e <regexp> -b <replacement> [-m <map file>]` (cmd/rename.go, one alignment).  Outer `none` = not
+modelled; `some none` = a failing status (`--regexp` without `--replace`; an expression that does not compile);
+else the renamed rows (`RenameRegexp`: every name replaced in place, names made equal stay equal) and the map
+`old name -> new name`, which the command writes to the map file when one is given. -/
+def renameRegexpResult (rows : Rows) (fl : List String) : Option (Option (Rows × List (String × String) × String)) := do
+  let o ← parseOpts [("-e", "--regexp"), ("-b", "--replace"), ("-m", "--map-file")] [] ["--regexp", "--replace", "--map-file"] fl
+  if (← effective "renameCmd" "output") != "stdout" || (← effective "renameCmd" "clean-names") != "false" ||
+     (← effective "renameCmd" "unaligned") != "false" then none
+  let mf ← optOr o "renameCmd" "map-file"
+  let pat := (o.reverse.find? (·.1 == "--regexp")).map (·.2)
+  let rep := (o.reverse.find? (·.1 == "--replace")).map (·.2)
+  match pat, rep with
+  | none, _ => none                      -- no expression: the map-file mode
+  | some _, none => some none
+  | some p, some t =>
+    if rows.isEmpty then none else
+    match ← compileRe p with
+    | none => some none
+    | some re =>
+      let names ← rows.mapM fun r => Regex.replaceAll re t r.1
+      -- a new name the FASTA writer / the wire form cannot carry
+      if names.any (fun n => n.any fun c => c == '\n' || c == '|' || c == '\t' || c == '~' || c == '=' || c == ';') then none else
+      let r := renameRegexp names (bagOf rows)
+      some (some (pairs r.1, r.2, mf))
+
+/-- `subset` (cmd/subset.go) on one alignment: `given` = the names, 0-based indices (`--indices`) or regular
+expressions (`-e`, priority) taken from the command line or from the name file; `-r` keeps the complement -/
+def subsetExpected (rows : Rows) (given fl : List String) : Option String :=
+  let rev := flag fl "-r" || flag fl "--revert"
+  if flag fl "-e" || flag fl "--regexp" then
+    -- the names are regular expressions (priority over `--indices`, whose conversion to integers comes first and
+    -- can still fail); an expression that does not compile is an error; a row is selected when one of them matches
+    if !(fl.all fun a => !a.startsWith "-" || ["-e", "--regexp", "-r", "--revert", "--indices"].contains a) then none else
+    if flag fl "--indices" && !(given.all fun g => (parseInt? g).isSome) then
+      (if given.all fun g => (parseInt? g).isSome || !(g.startsWith "+") then some bad else none)
+    else
+    match given.mapM compileRe with
+    | none => none
+    | some res =>
+      if res.any Option.isNone then some bad else
+      if rows.any (fun r => !Regex.asciiOnly r.1) then none else
+      let rs := res.filterMap id
+      some (ok (rows.filter fun r => (rs.any fun re => Regex.matchString re r.1) != rev))
+  else
+  if flag fl "--indices" then
+    match given.mapM parseInt? with
+    | none => if given.any (·.startsWith "+") then none else some bad
+    | some is => some (ok ((rows.zipIdx.filter fun (_, i) => is.contains (i : Int) != rev).map Prod.fst))
+  else some (ok (rows.filter fun r => given.contains r.1 != rev))
+
+/-- `subsites [sites…] [--sitefile f] [--ref-seq name] [-r] [--informative]` (cmd/subsites.go) on one alignment.
+Outer `none` = not modelled, `some none` = a failing status.  The sites come from the file (one integer per line)
+when one is given, else from the command line; none at all is refused.  `--informative`: the parsimony-informative
+sites of the alignment instead (none is refused; `--ref-seq` is then not looked at).  `--ref-seq`: the sites are
+positions on the ungapped reference row; `-r`: all the other sites.  Then `SelectSites`. -/
+def subsitesExpected (rows : Rows) (files : List (String × String)) (fl : List String) : Option (Option Rows) := do
+  let rec split : List String → Option (List (String × String) × List String)
+    | [] => some ([], [])
+    | a :: t =>
+      if a == "--ref-seq" || a == "--sitefile" then (match t with | v :: t' => (split t').map fun (o, p) => ((a, v) :: o, p) | [] => none)
+      else if a == "-r" || a == "--reverse" then (split t).map fun (o, p) => (("--reverse", "true") :: o, p)
+      else if a == "--informative" then (split t).map fun (o, p) => ((a, "true") :: o, p)
+      else if a.startsWith "-" then none else (split t).map fun (o, p) => (o, a :: p)
+  let (o, pos) ← split fl
+  let get (f : String) : Option String := (o.reverse.find? (·.1 == f)).map (·.2)
+  if (← effective "subsitesCmd" "output") != "stdout" then none
+  let L := lenOf rows
+  if rows.isEmpty then none
+  let informative := ((get "--informative").getD (← effective "subsitesCmd" "informative")) == "true"
+  let reverse := ((get "--reverse").getD (← effective "subsitesCmd" "reverse")) == "true"
+  let sitefile := (get "--sitefile").getD (← effective "subsitesCmd" "sitefile")
+  let refseq := (get "--ref-seq").isSome && !informative
+  let sites : Option (List Int) ←
+    if informative then
+      let alpha := autoAlphabet (rows.map Prod.snd)
+      if alpha != NUCLEOTIDS && alpha != AMINOACIDS then none else
+      some (some ((informativeSites rows L alpha).map Int.ofNat))
+    else if sitefile != "none" then
+      if sitefile == "stdin" || sitefile == "-" || sitefile.endsWith ".gz" then none else
+      match files.find? (·.1 == sitefile) with
+      | none => some none
+      | some f =>
+        let ls := f.2.splitOn "|"
+        let ls := if ls.getLast? == some "" then ls.dropLast else ls
+        if ls.any (fun l => l.startsWith "+" || l.contains '\r' || l.contains '_') then none else
+        some (ls.mapM parseInt?)
+    else
+      if pos.any (fun l => l.startsWith "+" || l.contains '_') then none else some (pos.mapM parseInt?)
+  match sites with
+  | none => some none
+  | some [] => some none
+  | some ss =>
+    let p1 : Option (List Int) := if refseq then (match refSites rows L ((get "--ref-seq").getD "") ss with | .ok r => some r | _ => none) else some ss
+    match p1 with
+    | none => some none
+    | some p1 =>
+      let p2 : Option (List Int) := if reverse then (match inversePositions L p1 with | .ok r => some r | _ => none) else some p1
+      match p2 with
+      | none => some none
+      | some p2 =>
+        match selectSites rows L p2 with
+        | .ok r => some (some r)
+        | .err => some none
+        | _ => none
+
 def expected2 (rows : Rows) (argv : List String) : Option String :=
   let L := lenOf rows
   match argv with
+  | "subsites" :: fl => do
+    match ← subsitesExpected rows [] fl with
+    | some r => some (ok r)
+    | none => some bad
+  | "rename" :: fl =>
+    if fl == ["--clean-names"] then some (ok (pairs (cleanNames (bagOf rows)))) else do
+    match ← renameRegexpResult rows fl with
+    | none => some bad
+    | some (r, _, mf) => if mf == "none" || mf == "None" then some (ok r) else none
+  | "replace" :: "-s" :: o :: "-n" :: nw :: [] =>
+    -- cmd/replace.go, literal replacement; an alignment whose rows no longer have one length is an error
+    if o.isEmpty then none else
+    let r := replaceBag (bytesOfString o) (bytesOfString nw) (bagOf rows)
+    some (if r.2 then bad else ok (pairs r.1))
+  | "replace" :: fl => do
+    -- every flag in any order, short or long; `-e`: `--old` is a regular expression, `--new` its replacement template;
+    -- both must be given (their defaults, the word `none`, are never used)
+    let o ← parseOpts [("-e", "--regexp"), ("-s", "--old"), ("-n", "--new")] ["--regexp"] ["--regexp", "--old", "--new"] fl
+    if (← effective "replaceCmd" "output") != "stdout" || (← effective "replaceCmd" "posfile") != "none" ||
+       (← effective "replaceCmd" "unaligned") != "false" then none
+    let isRe := (← optOr o "replaceCmd" "regexp") == "true"
+    match (o.reverse.find? (·.1 == "--old")).map (·.2), (o.reverse.find? (·.1 == "--new")).map (·.2) with
+    | some old, some new =>
+      if rows.isEmpty then none else
+      if isRe then
+        match ← compileRe old with
+        | none => some bad
+        | some re =>
+          let seqs ← rows.mapM fun r => Regex.replaceAll re new (stringOfBytes r.2)
+          if rows.any (fun r => r.2.any (· ≥ 128)) then none else
+          let table := rows.zip seqs
+          let f (q : Seq) : Seq := match table.find? (·.1.2 == q) with | some e => bytesOfString e.2 | none => q
+          let r := replaceBagWith f (bagOf rows)
+          -- an empty sequence is not written back as a FASTA record the reader model takes
+          if r.1.rows.any (·.seq.isEmpty) then none else
+          some (if r.2 then bad else ok (pairs r.1))
+      else
+        if old.isEmpty then none else
+        let r := replaceBag (bytesOfString old) (bytesOfString new) (bagOf rows)
+        if r.1.rows.any (·.seq.isEmpty) then none else
+        some (if r.2 then bad else ok (pairs r.1))
+    | _, _ => some bad
   | "trim" :: "seq" :: fl => do
     -- cmd/seq.go: TrimSequences(n, fromStart); -n defaults to 1
     let n ← parseInt? ((opt fl "-n").getD (← effective "seqCmd" "nb-char"))
@@ -246,12 +430,6 @@ def expected2 (rows : Rows) (argv : List String) : Option String :=
     if flag fl "-a" then some (ok (pairs (trimNamesAuto 1 (bagOf rows)).1)) else
     let n ← parseInt? ((opt fl "-n").getD (← effective "nameCmd" "nb-char"))
     let r := trimNames n (bagOf rows)
-    some (if r.2 then bad else ok (pairs r.1))
-  | ["rename", "--clean-names"] => some (ok (pairs (cleanNames (bagOf rows))))
-  | ["replace", "-s", o, "-n", nw] =>
-    -- cmd/replace.go, literal replacement; an alignment whose rows no longer have one length is an error
-    if o.isEmpty then none else
-    let r := replaceBag (bytesOfString o) (bytesOfString nw) (bagOf rows)
     some (if r.2 then bad else ok (pairs r.1))
   | "clean" :: "seqs" :: "-c" :: cut :: fl => do
     let (num, den) ← decFrac cut
@@ -266,14 +444,9 @@ def expected2 (rows : Rows) (argv : List String) : Option String :=
     | some (b, _) => some (ok (pairs b))
     | none => none
   | "subset" :: fl =>
-    -- cmd/subset.go (names or 0-based indices on the command line, `-r` keeps the complement; no pattern matching)
-    let rev := flag fl "-r" || flag fl "--revert"
-    let given := fl.filter fun a => !a.startsWith "-"
-    if flag fl "--indices" then
-      match given.mapM String.toNat? with
-      | none => some bad
-      | some is => some (ok ((rows.zipIdx.filter fun (_, i) => is.contains i != rev).map Prod.fst))
-    else some (ok (rows.filter fun r => given.contains r.1 != rev))
+    -- names, indices or expressions on the command line
+    if flag fl "-f" || flag fl "--name-file" then none else
+    subsetExpected rows (fl.filter fun a => !a.startsWith "-") fl
   | ["stats", "alphabet"] =>
     -- the alphabet the reader detected (`AutoAlphabet`), of the first alignment
     if rows.isEmpty then none else
@@ -403,31 +576,142 @@ def expectedF (rows : Rows) (files : List (String × String)) (argv : List Strin
       let n ← parseInt? ((opt fl "-n").getD (← effective "nameCmd" "nb-char"))
       let r := trimNames n (bagOf rows)
       if r.2 then some badF else some (okF (pairs r.1) (mf ++ "=" ++ nameMapText (old.zip ((pairs r.1).map Prod.fst))))
-  | "rename" :: "-m" :: mf :: fl => do
+  | "rename" :: fl =>
+    if flag fl "-e" || flag fl "--regexp" then do
+      -- the alignment on stdout, the map (old name, new name) in the file given with `-m`
+      match ← renameRegexpResult rows fl with
+      | none => some badF
+      | some (r, m, mf) =>
+        if mf == "none" || mf == "None" then some (okF r "") else
+        some (okF r (← filesPart [(mf, nameMapText m)]))
+    else
+    match fl with
+    | "-m" :: mf :: fl => do
     let f ← files.find? (·.1 == mf)
     let m ← ((f.2.splitOn "|").filter (· != "")).mapM fun l =>
       match l.splitOn "~" with
       | [a, b] => some (if flag fl "-r" then (b, a) else (a, b))
       | _ => none
     some (okF (pairs (rename m (bagOf rows))) "")
-  | "concat" :: other :: fl => do
-    -- cmd/concat.go: the alignment of stdin, then the one of the file; `-l` writes the coordinates
-    let o ← fileRows other
-    -- a file whose rows do not form an alignment is refused by the reader
-    if (addAllStop (newAlign 1) o).2 || o.isEmpty then some badF else
-    let ob := bagOf o
-    let r := concat (pairs ob) ob.length ob.alphabet (bagOf rows)
-    if r.2 then some badF else
-    let la := (lenOf rows).toNat; let lo := (lenOf o).toNat
-    let log := match opt fl "-l" with
-      | some lf => lf ++ "=" ++ "0 " ++ toString la ++ " stdin|" ++ toString la ++ " " ++ toString (la + lo) ++ " " ++ other ++ "|"
-      | none => ""
-    some (okF (pairs r.1) log)
-  | ["append", other] => do
-    let o ← fileRows other
-    if (addAllStop (newAlign 1) o).2 || o.isEmpty then some badF else
-    let r := appendRows (pairs (bagOf o)) (bagOf rows)
-    some (if r.2 then badF else okF (pairs r.1) "")
+    | _ => none
+  | "replace" :: fl => do
+    -- cmd/replace.go with `-f <file>`: one line `name<TAB>site<TAB>character…` per replacement (lines starting with `#`
+    -- are skipped; the first byte of the third column is the character; further columns are ignored), applied in
+    -- order through `ReplaceChar`; `--old` / `--new` are not needed.  A line with fewer than three columns, a site
+    -- that is no integer, a site outside the alignment, a name that no row has: a failing status.  (An EMPTY third
+    -- column makes the command panic - index out of range in `readreplacefile`: the generator never writes one.)
+    let pf ← match fl with
+      | ["-f", f] => some f
+      | ["--posfile", f] => some f
+      | _ => none
+    if pf == "none" || pf == "stdin" || pf == "-" || pf.endsWith ".gz" || rows.isEmpty then none
+    if (← effective "replaceCmd" "output") != "stdout" || (← effective "replaceCmd" "unaligned") != "false" then none
+    match files.find? (·.1 == pf) with
+    | none => some badF
+    | some f =>
+      let ls := f.2.splitOn "|"
+      let ls := (if ls.getLast? == some "" then ls.dropLast else ls).filter fun l => !l.startsWith "#"
+      if ls.any (fun l => l.contains '\r') then none else
+      let parsed : Option (List (Option (String × Int × Byte))) := ls.mapM fun l =>
+        match l.splitOn "~" with
+        | nm :: st :: ch :: _ =>
+          if st.startsWith "+" || st.contains '_' then none else
+          (match ch.toList.head?, parseInt? st with
+           | none, _ => none                     -- the panic
+           | some c, some site => if c.toNat < 128 then some (some (nm, site, c.toNat.toUInt8)) else none
+           | some _, none => some none)
+        | _ => some none
+      match parsed with
+      | none => none
+      | some reps =>
+        -- the whole file is read before anything is replaced
+        if reps.any Option.isNone then some badF else
+        let step (acc : Option (Option Bag)) (r : String × Int × Byte) : Option (Option Bag) :=
+          match acc with
+          | some (some b) => (match replaceChar r.1 r.2.1 r.2.2 b with
+              | some (b', false) => some (some b')
+              | some (_, true) => some none
+              | none => none)
+          | other => other
+        match (reps.filterMap id).foldl step (some (some (bagOf rows))) with
+        | none => none
+        | some none => some badF
+        | some (some b) => some (okF (pairs b) "")
+  | "subsites" :: fl => do
+    match ← subsitesExpected rows files fl with
+    | some r => some (okF r "")
+    | none => some badF
+  | "subset" :: fl => do
+    -- `-f <file>`: the names (indices, expressions) are read from the file, one per line and / or comma separated;
+    -- what the command line names is not looked at
+    let o ← parseOpts [("-f", "--name-file"), ("-r", "--revert"), ("-e", "--regexp")] ["--revert", "--regexp", "--indices"]
+      ["--name-file", "--revert", "--regexp", "--indices"] (fl.filter fun a => a.startsWith "-" || (opt fl "-f" == some a) || (opt fl "--name-file" == some a))
+    let nf ← (o.reverse.find? (·.1 == "--name-file")).map (·.2)
+    if nf == "stdin" || nf == "-" || nf.endsWith ".gz" then none
+    match files.find? (·.1 == nf) with
+    | none => some badF
+    | some f =>
+      let ls := f.2.splitOn "|"
+      let ls := if ls.getLast? == some "" then ls.dropLast else ls
+      if ls.any (fun l => l.contains '\r') then none else
+      let given := ls.flatMap fun l => l.splitOn ","
+      match subsetExpected rows given.eraseDups (fl.filter fun a => a.startsWith "-" && a != "-f" && a != "--name-file") with
+      | some r => some (r ++ " files=")
+      | none => none
+  | "concat" :: fl => do
+    -- cmd/concat.go: the alignment of stdin (left out with `-i none`), then the alignment of every file in the order
+    -- given; `-l` writes one line `start end source` per alignment (the source of stdin is the word `stdin`)
+    if (← effective "concatCmd" "output") != "stdout" then none
+    let logf := ((opt fl "-l").orElse fun _ => opt fl "--log").getD (← effective "concatCmd" "log")
+    let noStdin := opt fl "-i" == some "none"
+    let rec names : List String → Option (List String)
+      | [] => some []
+      | a :: t =>
+        if a == "-l" || a == "--log" || a == "-i" then (match t with | _ :: t' => names t' | [] => none)
+        else if a.startsWith "-" then none else (names t).map (a :: ·)
+    let others ← names fl
+    if opt fl "-i" != none && !noStdin then none
+    -- a file that does not exist: a failing status
+    match others.mapM fun n => (fileRows n).map fun r => (n, r) with
+    | none => some badF
+    | some os =>
+    let srcs : List (String × Rows) := (if noStdin then [] else [("stdin", rows)]) ++ os
+    -- `cur` = the alignment so far (`none` before the first one), the next start, the log
+    let step (acc : Option (Option Bag × Nat × String)) (src : String × Rows) : Option (Option Bag × Nat × String) :=
+      match acc with
+      | none => none
+      | some (cur, start, log) =>
+        -- a file whose rows do not form an alignment is refused by the reader
+        if (addAllStop (newAlign 1) src.2).2 || src.2.isEmpty then none else
+        let ob := bagOf src.2
+        let len := (lenOf src.2).toNat
+        let log := log ++ toString start ++ " " ++ toString (start + len) ++ " " ++ src.1 ++ "|"
+        match cur with
+        | none => some (some ob, start + len, log)
+        | some b =>
+          let r := concat (pairs ob) ob.length ob.alphabet b
+          if r.2 then none else some (some r.1, start + len, log)
+    match srcs.foldl step (some (none, 0, "")) with
+    | none => some badF
+    | some (none, _, _) => none
+    | some (some b, _, log) =>
+      if logf == "none" then some (okF (pairs b) "") else some (okF (pairs b) (← filesPart [(logf, log)]))
+  | "append" :: others => do
+    -- cmd/append.go: the rows of every file, in the order given, appended to the alignment of stdin
+    if others.isEmpty || others.any (·.startsWith "-") || (← effective "appendCmd" "output") != "stdout" then none
+    let step (acc : Option Bag) (n : String) : Option (Option Bag) :=
+      match acc, fileRows n with
+      | _, none => some none         -- a file that does not exist
+      | none, _ => some none
+      | some b, some o =>
+        if (addAllStop (newAlign 1) o).2 || o.isEmpty then some none else
+        let r := appendRows (pairs (bagOf o)) b
+        some (if r.2 then none else some r.1)
+    let res ← others.foldlM (fun acc n => step acc n) (some (bagOf rows))
+    match res with
+    | none => some badF
+    | some b => some (okF (pairs b) "")
+  | ["sort", "-o", f] => do some ("rc=0 out= files=" ++ (← filesPart [(f, fasta (pairs (sortRows (bagOf rows))))]))
   | "dedup" :: fl => do
     -- cmd/dedup.go: the alignment without the repeated rows on stdout; `-l`: one line per kept row, its name and
     -- the names of the rows identical to it, comma separated (also when nothing is identical to it)
